@@ -399,7 +399,7 @@ def install(w, spec, table, collecting):
     w.loop(Q_VCH, 1, inv=l1_inv, arrays=("llen", "lelem"))
     w.loop(Q_VCH, 2, inv=l2_inv, axioms=l2_axioms, arrays=("llen", "lelem") if collecting else ())
 
-    con = Contract(Q_VCH, params={"self": make_rule(sp.rule_name), "node": "Node", "is_mixed_content": ("const", sp.mixed)},
+    con = Contract(Q_VCH, params={"self": make_rule(sp.rule_name, reused=True), "node": "Node", "is_mixed_content": ("const", sp.mixed)},
                    requires=requires, axioms=axioms, ensures=ensures,
                    raises=[(ChildNotAllowedError, raise_cond, None), (MinOccurrenceUnmetError, raise_cond, None), (MaxOccurrenceExceededError, raise_cond, None)],
                    writes=("llen", "lelem"),
